@@ -6,8 +6,8 @@ Abstract view (the specification): for a map with entities E (plus the worldspaw
 and the index invariant I: the by_class / by_target mappings, read case-insensitively and with missing keys as empty
 sets, equal ByClass / ByTarget.
 
-Proof tier: the index-maintenance code of Entity.__setitem__ / __delitem__ and VMF.add_ent / remove_ent executed
-symbolically over *symbolic* index maps (key -> set of entity references, uninterpreted casefold): I is preserved for
+Proof tier: the index-maintenance code of Entity.__setitem__ / __delitem__ (10 lemmas) and VMF.add_ent / remove_ent
+(3 lemmas: entity in the map, already removed, not yet in the map) executed symbolically over *symbolic* index maps (key -> set of entity references, uninterpreted casefold): I is preserved for
 every other entity, every key, every old and new value.  _remove_copyset proved against its contract.
 Bounded tier: operation histories on real maps, comparing the indexes and search() with a scan after every step.
 """
